@@ -278,7 +278,11 @@ impl Script {
     /// What follows an OP_RETURN at the top level is never executed and is left as it is, so it need not balance;
     /// elements whose conditionals do not balance otherwise are returned unfolded.
     pub(crate) fn nest_conditionals(bits: Vec<ScriptBit>) -> Vec<ScriptBit> {
-        // the first OP_RETURN outside every conditional
+        Script::nest_conditionals_at(bits, true)
+    }
+
+    fn nest_conditionals_at(bits: Vec<ScriptBit>, top_level: bool) -> Vec<ScriptBit> {
+        // the first OP_RETURN outside every conditional (inside a branch an OP_RETURN ends nothing of the grammar)
         let mut depth = 0usize;
         let top_level_return = bits.iter().position(|bit| match bit {
             ScriptBit::OpCode(OpCodes::OP_IF | OpCodes::OP_NOTIF | OpCodes::OP_VERIF | OpCodes::OP_VERNOTIF) => {
@@ -289,7 +293,7 @@ impl Script {
                 depth = depth.saturating_sub(1);
                 false
             }
-            ScriptBit::OpCode(OpCodes::OP_RETURN) => depth == 0,
+            ScriptBit::OpCode(OpCodes::OP_RETURN) => top_level && depth == 0,
             _ => false,
         });
         let (head, tail) = bits.split_at(top_level_return.map_or(bits.len(), |position| position + 1));
@@ -305,8 +309,8 @@ impl Script {
         match bit {
             ScriptBit::If { code, pass, fail } => ScriptBit::If {
                 code,
-                pass: Script::nest_conditionals(pass),
-                fail: fail.map(Script::nest_conditionals),
+                pass: Script::nest_conditionals_at(pass, false),
+                fail: fail.map(|branch| Script::nest_conditionals_at(branch, false)),
             },
             other => other,
         }
